@@ -327,3 +327,15 @@ M("c11-generic-kw-order", "C11", D, "                if kwargs.get(f\"f_{key}\")
 M("c11-generic-none", "C11", D, "                if arg is not None:\n                    setattr(self, key[2:], arg)\n", "                setattr(self, key[2:], arg)\n",
   rules=["C11.generic"], what="original defect D19: f_c=None sets c to None")
 M("c11-generic-twin-notin", "C11", D, "                if kwargs.get(f\"f_{key}\") is None:\n", "                if f\"f_{key}\" not in kwargs or kwargs[f\"f_{key}\"] is None:\n", expect="pass")
+
+# ------------------------------------------------------------------ C02.warn audible (round-3 seed C02-r3b)
+M("c02-warn-ignored-base", "C02", C, "        self._compute()\n        try:\n            _ = self.coordinates", "        with warnings.catch_warnings():\n            warnings.simplefilter(\"ignore\", category=RuntimeWarning)\n            self._compute()\n        try:\n            _ = self.coordinates", rules=["C02.warn"])
+M("c02-warn-ignored-hdc", "C02", C, "        self._check_grid()\n        super().__init__()", "        self._check_grid()\n        warnings.filterwarnings(\"ignore\")\n        super().__init__()", rules=["C02.warn"])
+M("c02-warn-recorded", "C02", C, "        self._compute()\n        try:\n            _ = self.coordinates", "        with warnings.catch_warnings(record=True) as self._warnings:\n            self._compute()\n        try:\n            _ = self.coordinates", rules=["C02.warn"])
+M("c02-twin-warn-always", "C02", C, "        self._compute()\n        try:\n            _ = self.coordinates", "        with warnings.catch_warnings():\n            warnings.simplefilter(\"always\", category=RuntimeWarning)\n            self._compute()\n        try:\n            _ = self.coordinates", expect="pass")
+M("c02-twin-warn-ignore-other", "C02", C, "        self._check_grid()\n        super().__init__()", "        self._check_grid()\n        warnings.filterwarnings(\"ignore\", category=DeprecationWarning)\n        super().__init__()", expect="pass")
+M("c02-twin-warn-ignore-scoped", "C02", C, "        self._check_grid()\n        super().__init__()", "        with warnings.catch_warnings():\n            warnings.simplefilter(\"ignore\")\n            self._check_grid()\n        super().__init__()", expect="pass")
+
+# ------------------------------------------------------------------ C03.draw / C07.fresh (round-3 seed C03-r3b)
+M("c03-draw-cached", ["C03", "C07"], J, "        return self.inverse(self.model.draw_sample(n))", "        if self._sample is not None and len(self._sample) >= n:\n            return self._sample[:n]\n        return self.inverse(self.model.draw_sample(n))",
+  rules={"C03": ["C03.draw"], "C07": ["C07.fresh"]}, what="draw_sample serves the remembered sample")
